@@ -95,11 +95,11 @@ func doBuiltinCall(t *IntraAnalysisState, callValue ssa.Value, callCommon *ssa.C
 			return true
 
 		case "complex", "min", "max":
-			if len(callCommon.Args) == 2 {
-				f1 := callCommon.Args[1]
-				f2 := callCommon.Args[0]
-				simpleTransfer(t, instruction, f1, callValue)
-				simpleTransfer(t, instruction, f2, callValue)
+			// complex takes two operands, min and max take one or more operands
+			if len(callCommon.Args) >= 1 {
+				for _, arg := range callCommon.Args {
+					simpleTransfer(t, instruction, arg, callValue)
+				}
 				return true
 			}
 			return false
